@@ -20,6 +20,9 @@ history only, never from the model's verdicts):
                     match); dust HTLCs have none; no two HTLCs share an index
   mirror-signed     signer's remote commitment = mirror of the receiver's local commitment (same height)
   mirror-idle       nothing in flight ⇒ both views of both commitments are mirror images (byte-equal txs)
+  htlc-tx-identical at every accepted commitment_signed the digest of the second-level transaction the
+                    signer signed with its i-th HTLC signature equals the digest the receiver derives for
+                    its i-th verification job (both computed by the production code)
   log-agreement     at every signature delivery the signer's state when it signed and the receiver's
                     state now satisfy `agreeCheck` (= `LogAgreement`, the hypothesis of the *_partial
                     theorems), evaluated on the implementation's own dumps
@@ -27,6 +30,7 @@ history only, never from the model's verdicts):
 import LndModel.Prelude.Lines
 import LndModel.C01.Model
 import LndModel.C01.Bounded
+import LndModel.C01.HtlcTx
 import LndModel.C02.Model
 
 open LndModel LndModel.Lines LndModel.C01
@@ -123,6 +127,55 @@ def outLe (a b : Out) : Bool :=
 
 def sortOuts (os : List Out) : List Out := os.mergeSort outLe
 
+/-! ### real transactions: pkScript bytes as an ordered key (TxOrder's `script : Nat`) -/
+
+def hexVal (c : Char) : Nat :=
+  if c.isDigit then c.toNat - 48 else if c.toNat ≥ 97 && c.toNat ≤ 102 then c.toNat - 87 else 0
+
+def bytesOfHex : List Char → List Nat
+  | a :: b :: rest => (hexVal a * 16 + hexVal b) :: bytesOfHex rest
+  | _ => []
+
+/-- order-preserving (bytes.Compare) injective encoding of a pkScript of at most 40 bytes. -/
+def encScript (hex : String) : Nat :=
+  let bs := bytesOfHex hex.toList
+  (bs.foldl (fun acc b => acc * 257 + (b + 1)) 0) * 257 ^ (40 - bs.length)
+
+def rawTx (r : RawOut) : TxO := ⟨r.value, encScript r.script, r.cltv⟩
+
+/-- the script oracle of one real transaction: abstract output ↦ its real pkScript. -/
+def oracle (raw : List RawOut) (o : Out) : Nat :=
+  match raw.find? (fun r => kindOf r.cls == some o.kind && r.hid == o.hash && r.cltv == o.cltv) with
+  | some r => encScript r.script
+  | none => 0
+
+def oidxOpt (l : List (Bool × Nat × Int)) : List (Option Nat) :=
+  l.map fun x => if x.2.2 < 0 then none else some x.2.2.toNat
+
+/-- one signer job as the harness reports it (`T` token). -/
+structure JobTok where
+  pos : Int
+  tx : SecondTx
+  hashType : Nat
+  version : Nat
+  nIn : Nat
+  nOut : Nat
+  prevIndex : Nat
+  prevHashOk : Bool
+  digest : String
+deriving Repr, Inhabited
+
+def parseJobTok (tok : String) : Option JobTok :=
+  match tok.splitOn ":" with
+  | ["T", pos, oi, succ, lock, sq, v, pv, ht, ver, nin, nout, pidx, phok, dg] =>
+    some { pos := pos.toInt?.getD (-2),
+           tx := { outIndex := (oi.toNat?).getD 1000000, success := succ == "1", lockTime := lock.toNat?.getD 0,
+                   sequence := sq.toNat?.getD 0, value := (v.toNat?).getD 0, prevValue := pv.toNat?.getD 0,
+                   sigHashAll := ht == "1" },
+           hashType := ht.toNat?.getD 0, version := ver.toNat?.getD 0, nIn := nin.toNat?.getD 0,
+           nOut := nout.toNat?.getD 0, prevIndex := pidx.toNat?.getD 1000000, prevHashOk := phok == "1", digest := dg }
+  | _ => none
+
 def pairNat (s : String) : Nat × Nat :=
   match s.splitOn "," with
   | [a, b] => (natD a, natD b)
@@ -196,6 +249,14 @@ structure St where
   /-- signer's state right before each signature still in flight (per direction). -/
   snapAB : List NDump := []
   snapBA : List NDump := []
+  /-- (signature position, digest) of the signer's second-level transactions, per signature in flight. -/
+  jobsAB : List (List (Int × String)) := []
+  jobsBA : List (List (Int × String)) := []
+  /-- the jobs of the commitment_signed that has just been delivered (for the `V` line). -/
+  curJobs : Option (List (Int × String)) := none
+  secondChecked : Nat := 0
+  verifyJobsChecked : Nat := 0
+  digestsCompared : Nat := 0
   agreeChecks : Nat := 0
   badSigs : Nat := 0
   outIdxChecked : Nat := 0
@@ -263,6 +324,11 @@ def commitDiff (m : Commit) (d : CDump) : Option String :=
   else if m.htlcs != c.htlcs then some s!"h={c.height} htlcs model={repr m.htlcs} impl={repr c.htlcs}"
   else if c.height != 0 && sortOuts m.outs != sortOuts c.outs then
     some s!"h={c.height} outputs model={repr (sortOuts m.outs)} impl={repr (sortOuts c.outs)}"
+  else if c.height != 0 && sortedTx (oracle d.raw) m.outs != d.raw.map rawTx then
+    some s!"h={c.height} sorted transaction: commitSort of the model's outputs with the real scripts = {repr ((sortedTx (oracle d.raw) m.outs).map fun o => (o.value, o.cltv))} impl={repr (d.raw.map fun r => (r.value, r.cltv))}"
+  else if c.height != 0 && !d.oidx.isEmpty &&
+      populate (d.raw.map rawTx) (Htlc.ht (oracle d.raw) d.chain) (fun _ => []) m.htlcs != some (oidxOpt d.oidx) then
+    some s!"h={c.height} htlc output indices model={repr (populate (d.raw.map rawTx) (Htlc.ht (oracle d.raw) d.chain) (fun _ => []) m.htlcs)} impl={repr (oidxOpt d.oidx)}"
   else none
 
 def chainDiff (name : String) (m : CChain) (ds : List CDump) : Option String :=
@@ -583,7 +649,8 @@ def badSigLine (s : St) (ws : List String) : IO St := do
   let recv := if dir == "AB" then "B" else "A"
   s := readQ { s with ops := s.ops + 1, dirty := [recv], dead := true, badSigs := s.badSigs + 1 } ws
   s := { s with errKinds := bump s.errKinds ("badsig_" ++ impl) }
-  if dir == "AB" then s := { s with snapAB := s.snapAB.drop 1 } else s := { s with snapBA := s.snapBA.drop 1 }
+  if dir == "AB" then s := { s with snapAB := s.snapAB.drop 1, jobsAB := s.jobsAB.drop 1 }
+  else s := { s with snapBA := s.snapBA.drop 1, jobsBA := s.jobsBA.drop 1 }
   if impl == "ok" then
     s ← monitor s "forged-sig-accepted" s!"{dir}: a commitment_signed with a corrupted signature was accepted"
   else if internalErr impl then
@@ -610,7 +677,10 @@ def deliverLine (s : St) (ws : List String) : IO St := do
   s := readQ { s with ops := s.ops + 1, dirty := [recv] } ws
   s := { s with errKinds := bump s.errKinds ("recv_" ++ impl) }
   -- monitor: honest peers never reject each other's signatures or updates
+  s := { s with curJobs := none }
   if kind == "commitsig" then
+    if dir == "AB" then s := { s with curJobs := s.jobsAB.head?, jobsAB := s.jobsAB.drop 1 }
+    else s := { s with curJobs := s.jobsBA.head?, jobsBA := s.jobsBA.drop 1 }
     -- hypothesis of `honest_sig_verifies_partial`: LogAgreement(signer when signing, receiver now),
     -- evaluated on the implementation's own states
     let snaps := if dir == "AB" then s.snapAB else s.snapBA
@@ -682,6 +752,85 @@ def reloadLine (s : St) (ws : List String) : IO St := do
   | .error e => mismatch s s!"node={node} model restore fails ({e.toString}), implementation restarts fine"
   | .ok n' => pure (setNode s node n')
 
+def lastOf (ds : List CDump) : Option CDump := ds.getLast?
+
+/-- `J X h= n= err= | T:…`: X has just signed; the second-level transactions the production code
+    derives for its new remote commitment, each with the position of the HTLC signature that signs
+    it.  Model: `signJobs` over `populate` on TxOrder's `commitSort` of the model's outputs. -/
+def jobsLine (s : St) (ws : List String) : IO St := do
+  let node := ws[1]?.getD ""
+  let toks := ((ws.dropWhile (· ≠ "|")).drop 1).filterMap parseJobTok
+  let nSigs := (kvNat? ws "n").getD 0
+  let jq := toks.map fun t => (t.pos, t.digest)
+  let mut s := if node == "A" then { s with jobsAB := s.jobsAB ++ [jq] } else { s with jobsBA := s.jobsBA ++ [jq] }
+  if !s.modelOk then return s
+  let n := if node == "A" then s.mA else s.mB
+  let d := if node == "A" then s.dA else s.dB
+  if (kv? ws "err").getD "" != "ok" then
+    return (← mismatch s s!"node={node} second-level jobs: harness could not derive them")
+  match lastOf (d.chainOf .rem) with
+  | none => mismatch s s!"node={node} second-level jobs: no remote commitment dumped"
+  | some cd =>
+    let P := n.chainR.tip
+    let idx := (populate (cd.raw.map rawTx) (Htlc.ht (oracle cd.raw) .rem) (fun _ => []) P.htlcs).getD (oidxOpt cd.oidx)
+    let want := signJobs n.cfg P idx
+    let got := (toks.mergeSort fun a b => a.pos ≤ b.pos)
+    s := { s with secondChecked := s.secondChecked + got.length }
+    let wantHT := if n.cfg.anchors then 131 else 1
+    if got.map (·.tx) != want then
+      mismatch s s!"node={node} h={P.height} second-level transactions in signature order: model={repr want} impl={repr (got.map (·.tx))}"
+    else if nSigs != want.length || got.map (·.pos) != (List.range want.length).map Int.ofNat then
+      mismatch s s!"node={node} h={P.height} htlc signature positions: {nSigs} signatures, jobs signed by positions {got.map (·.pos)}, model expects 0..{want.length}-1 in output order"
+    else if got.any fun t => t.version != 2 || t.nIn != 1 || t.nOut != 1 || t.prevIndex != t.tx.outIndex || !t.prevHashOk || t.hashType != wantHT then
+      mismatch s s!"node={node} h={P.height} second-level transaction shape (version 2, 1 input spending the HTLC output of this commitment, 1 output, sighash type {wantHT}): impl={repr got}"
+    else pure s
+
+/-- `V Y h= n= err= | K:… Q:…`: Y has just accepted a commitment_signed. -/
+def verifyLine (s : St) (ws : List String) : IO St := do
+  let node := ws[1]?.getD ""
+  let toks := (ws.dropWhile (· ≠ "|")).drop 1
+  let ks := toks.filterMap fun t => match t.splitOn ":" with
+    | ["K", pos, dir, hi, oi] => some (pos.toInt?.getD (-2), dir == "i", hi.toNat?.getD 0, oi.toInt?.getD (-2))
+    | _ => none
+  let qs := toks.filterMap fun t => match t.splitOn ":" with
+    | ["Q", pos, hi, dg] => some (pos.toNat?.getD 0, hi.toNat?.getD 0, dg)
+    | _ => none
+  let mut s := s
+  -- monitor: both peers derive the identical second-level transaction for every signature
+  if let some jq := s.curJobs then
+    if (kv? ws "err").getD "" == "ok" then
+      for (qpos, hi, dg) in qs do
+        s := { s with digestsCompared := s.digestsCompared + 1 }
+        match jq.find? (fun j => j.1 == Int.ofNat qpos) with
+        | some (_, dj) =>
+          if dj != dg then
+            s ← monitor s "htlc-tx-identical" s!"node={node} htlc signature {qpos} (htlc index {hi}): the signer signed a second-level transaction with digest {dj}, the receiver derives {dg}"
+        | none =>
+          -- the harness found no signer job whose digest that signature verifies for: reported as a
+          -- broken tie, not as a property violation (the pairing is the harness's own verification)
+          s ← mismatch s s!"node={node} htlc signature {qpos} (htlc index {hi}): no signer job is signed by that signature"
+  s := { s with curJobs := none }
+  if !s.modelOk then return s
+  let n := if node == "A" then s.mA else s.mB
+  let d := if node == "A" then s.dA else s.dB
+  if (kv? ws "err").getD "" != "ok" then
+    return (← mismatch s s!"node={node} verification jobs: harness could not derive them")
+  match lastOf (d.chainOf .loc) with
+  | none => mismatch s s!"node={node} verification jobs: no local commitment dumped"
+  | some cd =>
+    let cm := n.chainL.tip
+    let idx := (populate (cd.raw.map rawTx) (Htlc.ht (oracle cd.raw) .loc) (fun _ => []) cm.htlcs).getD (oidxOpt cd.oidx)
+    let want := verifyJobs n.cfg cm idx cd.raw.length
+    s := { s with verifyJobsChecked := s.verifyJobsChecked + want.length }
+    let wantQ := want.zipIdx.map fun (j, i) => (i, j.1)
+    let wantK := want.zipIdx.map fun (j, i) => (Int.ofNat i, j.2.1, j.1, Int.ofNat j.2.2.outIndex)
+    let le4 (a b : Int × Bool × Nat × Int) : Bool := a.1 ≤ b.1
+    if qs.map (fun q => (q.1, q.2.1)) != wantQ then
+      mismatch s s!"node={node} h={cm.height} verification jobs (position, htlc index): model={repr wantQ} impl={repr (qs.map fun q => (q.1, q.2.1))}"
+    else if ks.mergeSort le4 != wantK then
+      mismatch s s!"node={node} h={cm.height} signatures stored with the HTLCs (sig position, incoming, htlc index, output index): model={repr wantK} impl={repr (ks.mergeSort le4)}"
+    else pure s
+
 def b01 (ws : List String) (k : String) : Bool := (kvNat? ws k).getD 0 == 1
 
 def step (s : St) (line : String) : IO St := do
@@ -713,7 +862,8 @@ def step (s : St) (line : String) : IO St := do
     let s := { s with caseId := id, cases := s.cases + 1, inited := false, modelOk := true, caseMismatch := 0,
                       caseMonitor := 0, cap := cfgA.capacity, anchors := cfgA.anchors, cfgA := cfgA,
                       qab := [], qba := [], dA := {}, dB := {}, cur := none, dirty := [], qlenAB := 0, qlenBA := 0,
-                      dead := false, resolved := [], hist := [], snapAB := [], snapBA := [] }
+                      dead := false, resolved := [], hist := [], snapAB := [], snapBA := [],
+                      jobsAB := [], jobsBA := [], curJobs := none }
     if s.samples < 4 then
       IO.println s!"SAMPLE {line}"
       return { s with samples := s.samples + 1 }
@@ -739,6 +889,8 @@ def step (s : St) (line : String) : IO St := do
       return if node == "A" then { s with dA := upd s.dA } else { s with dB := upd s.dB }
     | none => mismatch s s!"unparsed commitment line"
   | "D" :: _ => deliverLine s ws
+  | "J" :: _ => jobsLine s ws
+  | "V" :: _ => verifyLine s ws
   | "R" :: _ => reloadLine s ws
   | "A" :: _ => opLine s "A" ws
   | "B" :: _ => opLine s "B" ws
@@ -756,7 +908,7 @@ def main (args : List String) : IO Unit := do
   let s ← flush s
   -- bounded exhaustive exploration of the model's two-party system (not a proof; see Bounded.lean)
   let depth := (args.findSome? fun a => if a.startsWith "--bounded=" then (a.drop 10).toNat? else none).getD 0
-  let depth := if depth > 0 && s.cases > 400 then depth + 1 else depth
+  let depth := if depth > 0 && s.cases > 400 then depth + 2 else depth
   let s ← if depth == 0 then pure s else do
     let b := LndModel.C01.Bounded.run depth
     IO.println s!"STAT bounded_depth={depth}"
@@ -782,6 +934,9 @@ def main (args : List String) : IO Unit := do
   IO.println s!"STAT restarts={s.restarts}"
   IO.println s!"STAT restarts_with_pending_commitment={s.restartsPending}"
   IO.println s!"STAT htlc_output_indices_checked={s.outIdxChecked}"
+  IO.println s!"STAT second_level_txs_checked={s.secondChecked}"
+  IO.println s!"STAT verify_jobs_checked={s.verifyJobsChecked}"
+  IO.println s!"STAT second_level_digests_compared={s.digestsCompared}"
   IO.println s!"STAT idle_mirror_checks={s.idleChecks}"
   IO.println s!"STAT dust_htlcs_on_commitments={s.dustHtlcs}"
   IO.println s!"STAT nondust_htlcs_on_commitments={s.nondustHtlcs}"
